@@ -62,10 +62,36 @@ _DENV: Optional[jp.JSONPathEnvironment] = None
 _NENV: Optional[jp.JSONPathEnvironment] = None
 
 
+class _Det(jp.JSONPathEnvironment):
+    nondeterministic = False
+
+
+class _Inherited(NDEnv):
+    pass
+
+
+_NENVS: List[jp.JSONPathEnvironment] = []
+
+
 def worker_init() -> None:
     global _DENV, _NENV
     _DENV = jp.JSONPathEnvironment()
     _NENV = NDEnv()
+    # the ways a user switches the mode on: a subclass attribute, the subclass of such a subclass,
+    # an attribute set on a plain environment object, an object attribute overriding its class
+    plain = jp.JSONPathEnvironment()
+    plain.nondeterministic = True
+    over = _Det()
+    over.nondeterministic = True
+    _NENVS[:] = [_NENV, _Inherited(), plain, over]
+
+
+def _nenv(text: str) -> jp.JSONPathEnvironment:
+    """Which of the equivalent nondeterministic environments evaluates this query: a function
+    of the query text alone (so a replay needs nothing more)."""
+    import zlib
+
+    return _NENVS[zlib.crc32(text.encode("utf-8", "surrogatepass")) % len(_NENVS)]
 
 
 # ---------------------------------------------------------------------------
@@ -226,12 +252,12 @@ def run_stream(text: str, doc: Any, sseed: int, profile: Dict[str, Any], feed: O
                 if text not in _COMPILED:
                     if len(_COMPILED) > 50:
                         _COMPILED.clear()
-                    _COMPILED[text] = _NENV.compile(text)
+                    _COMPILED[text] = _nenv(text).compile(text)
                 assert _DENV is not None
                 _DENV.find("$..[*]", {"a": [1, {"b": 2}], "c": 3})
                 nodes = _COMPILED[text].find(doc)
             else:
-                nodes = _NENV.find(text, doc)
+                nodes = _nenv(text).find(text, doc)
         except simrandom.ChoiceBudgetExceeded:
             return None, f"no-termination: more than {sim.cap} random decisions consumed", True, sim.log[:200], sim.draws
         except Exception as exc:  # noqa: BLE001
@@ -266,7 +292,7 @@ def run_tapped(text: str, doc: Any, sseed: int, profile: Dict[str, Any], feed: O
     simrandom.install(sim)
     try:
         try:
-            compiled = _NENV.compile(text)
+            compiled = _nenv(text).compile(text)
             segs = getattr(compiled, "segments", None)
             if segs is None or not all(hasattr(g, "resolve") for g in segs):
                 return None, None, sim.log
@@ -538,7 +564,7 @@ def _steer_eval(text: str, doc: Any, plan: List[int]):
     exc = None
     try:
         try:
-            for node in _NENV.finditer(text, doc):
+            for node in _nenv(text).finditer(text, doc):
                 res.append(tuple(node.location))
                 sim.produced = len(res)
         except simrandom.ChoiceBudgetExceeded:
